@@ -345,14 +345,13 @@ class RadiDict:
         elif mismatch:
             return
 
-        if hooks_only and node[DATA] is not None:
-            node[HOOKS] = None
-            return
-
         stack.reverse()
         assert node is stack[0]
-        node[DATA] = None
-        node[PARAMS] = []
+        if hooks_only:
+            node[HOOKS] = None
+        else:
+            node[DATA] = None
+            node[PARAMS] = []
         key0_to_del = None
         for node in stack:
             if key0_to_del:
@@ -364,7 +363,7 @@ class RadiDict:
                 node[IDX] = node[IDX].replace(key0_to_del, '')
                 del node[OFFSET + kidx]
                 self._try_merge(node)
-            if not (node[DATA] or node[IDX]):
+            if not (node[DATA] or node[IDX] or node[HOOKS]):
                 key0_to_del = node[KEY][0]
             else:
                 break
